@@ -389,6 +389,32 @@ def observe(g, L, known, grid, light=False):
     except Exception as ex:
         err.append("cnt:exc:" + exc_name(ex))
     o["cnt"] = cnt
+    # functional forms of the snapshot index queries
+    ids2, cnt2 = [], []
+    try:
+        for c in list(dn.temporal_snapshots_ids(g)):
+            try:
+                ids2.append(L.atime(c))
+            except KeyError:
+                err.append("ids:type")
+    except Exception as ex:
+        err.append("ids:exc:" + exc_name(ex))
+    try:
+        d2 = dn.interactions_per_snapshots(g)
+        if isinstance(d2, Mapping):
+            for k, val in d2.items():
+                r = _rat(val, err, "cnt:")
+                try:
+                    if r is not None:
+                        cnt2.append([L.atime(k)] + r)
+                except KeyError:
+                    err.append("cnt:key-type")
+        else:
+            err.append("cnt:not-dict")
+    except Exception as ex:
+        err.append("cnt:exc:" + exc_name(ex))
+    o["ids2"] = ids2
+    o["cnt2"] = cnt2
     cntAt, nn = [], []
     for t in times:
         try:
